@@ -162,14 +162,14 @@ deriving Repr, Inhabited
 
 def mainName : String := "__main__"
 
-/-- callsub labels in order of first occurrence, each with the positions of its callsub instructions -/
+/-- callsub labels in order of first occurrence (dict insertion order of `subroutine_callsubs`) -/
+def callsubLabels (ins : List Ins) : List String :=
+  (ins.filterMap fun i => match i.op with | .callsub l => some l | _ => none).eraseDups
+
+/-- each callsub label with the positions of its callsub instructions -/
 def callsubTable (ins : List Ins) : List (String × List Nat) :=
-  (ins.zipIdx).foldl (fun acc (i, k) =>
-    match i.op with
-    | .callsub l =>
-      if acc.any (·.1 == l) then acc.map fun (n, ks) => if n == l then (n, ks ++ [k]) else (n, ks)
-      else acc ++ [(l, [k])]
-    | _ => acc) []
+  (callsubLabels ins).map fun l =>
+    (l, (ins.zipIdx).filterMap fun (i, k) => if i.op == .callsub l then some k else none)
 
 def exitOp (ins : List Ins) (b : RawBlock) : Option Op :=
   b.ins.getLast?.bind fun k => ins[k]?.map (·.op)
